@@ -227,7 +227,31 @@ func ruleWaitSet(c *Check, rule string) {
 		return
 	}
 	keep := `RunOnce|SeenInstances|InstanceSet|NewInstanceSet|Receiver\)\.Next|LoadOnce`
-	pre := c.walkRegion(rule, sl.fn, nil, keep, func(b *ssa.BasicBlock) bool { return b == sl.mainHdr })
+	pre := c.walkRegion(rule, sl.fn, nil, keep+`|isnil\(loop:`, func(b *ssa.BasicBlock) bool { return b == sl.mainHdr })
+	// a loop variable that only ever holds the result of RunOnce (the listing
+	// loop written as `for err := RunOnce(); err != nil; err = RunOnce()`)
+	runOnceVar := func(name string) bool {
+		found := false
+		for _, b := range sl.fn.Blocks {
+			for _, in := range b.Instrs {
+				phi, ok := in.(*ssa.Phi)
+				if !ok {
+					break
+				}
+				if phi.Comment != name || !isLoopHeader(b) {
+					continue
+				}
+				found = true
+				for _, e := range phi.Edges {
+					call, ok := e.(*ssa.Call)
+					if !ok || !isCallTo(call, "syncer/receiver.(*Receiver).RunOnce") {
+						return false
+					}
+				}
+			}
+		}
+		return found
+	}
 	nAdd, nReach, bad := 0, 0, 0
 	for i := range pre {
 		p := &pre[i]
@@ -251,6 +275,17 @@ func ruleWaitSet(c *Check, rule string) {
 					ri = eventIndex(p, e)
 				}
 				tr, f := condTruth(p, "isnil(syncer/receiver.(*Receiver).RunOnce@", eventIndex(p, seen[0]))
+				if !f {
+					for j := 0; j < eventIndex(p, seen[0]); j++ {
+						e := &p.Events[j]
+						if e.Kind == "cond" && e.Cond.Atom.Kind == "bool" && strings.HasPrefix(e.Cond.Atom.A, "isnil(loop:") {
+							v := strings.TrimPrefix(e.Cond.Atom.A, "isnil(loop:")
+							if k := strings.Index(v, "@"); k > 0 && runOnceVar(v[:k]) {
+								tr, f = e.Cond.Truth, true
+							}
+						}
+					}
+				}
 				okk = ri >= 0 && f && tr
 			}
 			if !okk {
